@@ -31,12 +31,20 @@ package pogreb
 //@ func (idx *index) newBucketIterator(startBucketIdx uint32) (it *bucketIterator) [C01,C11]
 //@   ensures it != nil && fresh(it) && it.off == 512 + 512*int64(startBucketIdx) && it.f == idx.main && it.overflow == idx.overflow
 
+// every non-empty slot of an in-memory bucket designates a record inside an existing segment
+//@ spec func bucketInLog(b bucket, dl *datalog) bool = forall p int :: 0 <= p && p < 31 && b.slots[p].offset != 0 ==> slotInSeg(dl, b.slots[p])
+
+//@ spec func bucketPtrInLog(b *bucket, dl *datalog) bool = forall p int :: 0 <= p && p < 31 && b.slots[p].offset != 0 ==> slotInSeg(dl, b.slots[p])
+
 //@ func (b *bucketHandle) read() (err error) [C01,C02,C11,C18]
 //@   requires handle: b.file != nil && fileInv(b.file) && b.offset >= 0 && b.offset <= 0x1000000000000
 //@   ensures inside: err == nil ==> b.offset + 512 <= fLen[fidOf[b.file.File]]
 //@   ensures slots: err == nil ==> forall p int :: 0 <= p && p < 31 ==> slotEncoded(fData[fidOf[b.file.File]], int(b.offset)+16*p, b.slots[p])
 //@   ensures next: err == nil ==> uint64(b.next) == le64(fData[fidOf[b.file.File]], int(b.offset)+496)
+// a bucket read from an index file whose slots all point into the log points into the log
+//@   ensures [C01] inlog: err == nil && theDB() != nil && bucketAt(b.offset, b.file.size) && slotsInLog(fData[fidOf[b.file.File]], b.file.size, theDB().datalog) ==> bucketInLog(b.bucket, theDB().datalog)
 //@   ensures err: err != nil ==> isIOErr(err) || err == io.EOF
+//@   at return: hint positions: err == nil ==> forall p int :: 0 <= p && p < 31 ==> trig(b.offset + 16*int64(p)) && slotEncoded(fData[fidOf[b.file.File]], int(b.offset + 16*int64(p)), b.slots[p])
 //@   modifies b.bucket
 
 //@ func (b *bucketHandle) write() (err error) [C01,C02,C18]
@@ -46,7 +54,11 @@ package pogreb
 //@   ensures next: err == nil ==> le64(fData[fidOf[b.file.File]], int(b.offset)+496) == uint64(b.next)
 //@   ensures nexts: err == nil ==> forall q int64 :: trig(q) && nextPos(q, b.file.size) ==> le64(fData[fidOf[b.file.File]], int(q)) == ite(q == b.offset + 496, uint64(b.next), le64(old(fData[fidOf[b.file.File]]), int(q)))
 //@   ensures others: err == nil ==> forall q int :: 0 <= q && q < int(b.file.size) && (q < int(b.offset) || q >= int(b.offset)+512) ==> fData[fidOf[b.file.File]][q] == old(fData[fidOf[b.file.File]])[q]
+// writing a bucket whose slots point into the log keeps "every slot of the file points into the log"
+//@   ensures [C01] inlog: err == nil && theDB() != nil && bucketInLog(b.bucket, theDB().datalog) && slotsInLog(old(fData[fidOf[b.file.File]]), b.file.size, theDB().datalog) ==> slotsInLog(fData[fidOf[b.file.File]], b.file.size, theDB().datalog)
 //@   ensures err: err != nil ==> isIOErr(err)
+//@   at return: hint in-bucket: err == nil ==> forall q int64 :: trig(q) && b.offset <= q && q < b.offset + 496 && q & 15 == 0 ==> slotEncoded(fData[fidOf[b.file.File]], int(q), b.slots[int((q - b.offset) >> 4)])
+//@   at return: hint outside: err == nil ==> forall q int64 :: trig(q) && slotPos(q, b.file.size) && (q < b.offset || q >= b.offset + 512) ==> le32(fData[fidOf[b.file.File]], int(q)+12) == le32(old(fData[fidOf[b.file.File]]), int(q)+12) && le16(fData[fidOf[b.file.File]], int(q)+4) == le16(old(fData[fidOf[b.file.File]]), int(q)+4) && le16(fData[fidOf[b.file.File]], int(q)+6) == le16(old(fData[fidOf[b.file.File]]), int(q)+6) && le32(fData[fidOf[b.file.File]], int(q)+8) == le32(old(fData[fidOf[b.file.File]]), int(q)+8)
 //@   modifies fData[fidOf[b.file.File]], fLen[fidOf[b.file.File]], fDur[fidOf[b.file.File]]
 
 //@ func (it *bucketIterator) next() (b bucketHandle, err error) [C01,C11]
@@ -58,6 +70,7 @@ package pogreb
 //@   ensures slots: err == nil ==> forall p int :: 0 <= p && p < 31 ==> slotEncoded(fData[fidOf[b.file.File]], int(b.offset)+16*p, b.slots[p])
 //@   ensures next: err == nil ==> uint64(b.next) == le64(fData[fidOf[b.file.File]], int(b.offset)+496)
 //@   ensures advance: err == nil ==> it.off == b.next && it.f == it.overflow
+//@   ensures [C01] inlog: err == nil && theDB() != nil && bucketAt(b.offset, b.file.size) && slotsInLog(fData[fidOf[b.file.File]], b.file.size, theDB().datalog) ==> bucketInLog(b.bucket, theDB().datalog)
 // (names the position of the overflow pointer that was read, so that callers' chain invariants are instantiated there)
 //@   ensures named: err == nil ==> trig(b.offset + 496)
 //@   ensures err: err != nil ==> isIOErr(err) || err == io.EOF || err == ErrIterationDone
